@@ -350,8 +350,24 @@ def _single_exit(body: list) -> Optional[list]:
 def _stmt_form(h) -> Optional[tuple]:
     """(statements, returned expression or None) for (S)"""
     body = _body(h.node)
-    # value returns from several places: one exit
+    # value returns from several places: one exit; likewise a procedure that returns early from inside nested conditionals
     n_val_returns = sum(1 for s_ in body for x in ast.walk(s_) if isinstance(x, ast.Return) and x.value is not None)
+    n_bare_nested = sum(1 for s_ in body if isinstance(s_, ast.If) for arm in (s_.body, s_.orelse) for y in arm for x in ast.walk(y)
+                        if isinstance(x, ast.Return) and x.value is None and not (y is x and len(arm) == 1 and not s_.orelse))
+    if n_val_returns == 0 and n_bare_nested and not _has(ast.Module(body=body, type_ignores=[]), (ast.Yield, ast.YieldFrom)):
+        se = _single_exit(copy.deepcopy(body))
+        if se is not None:
+            # a procedure: the result local is not needed
+            class _Drop(ast.NodeTransformer):
+                def visit_Assign(self, node):
+                    if len(node.targets) == 1 and isinstance(node.targets[0], ast.Name) and node.targets[0].id == _RET:
+                        return ast.copy_location(ast.Pass(), node)
+                    return node
+            se = [_Drop().visit(s_) for s_ in se]
+            for s_ in se:
+                ast.fix_missing_locations(s_)
+            if not any(_has(s_, (ast.Return, ast.Global, ast.Nonlocal, ast.Await)) for s_ in se):
+                return se, None
     if n_val_returns >= 2 and not _has(ast.Module(body=body, type_ignores=[]), (ast.Yield, ast.YieldFrom)):
         se = _single_exit(copy.deepcopy(body))
         if se is not None:
